@@ -695,10 +695,8 @@ func findParentInsideGraph(ds *ld.RDFDataset, q *ld.Quad) (datasetIdx, error) {
 	found := false
 	var result datasetIdx
 	for idx, quad := range quads {
-		if quad == q {
-			continue
-		}
-
+		// the quad itself is not skipped: it can only match when its object
+		// is its own subject, and a node referring to itself has no path
 		objKey, err := getRef(quad.Object)
 		if err == errInvalidReferenceType {
 			continue
